@@ -1,47 +1,15 @@
 /- Driver/Main.lean — JSON-lines driver: one request per line on stdin, one reply per line. -/
-import Driver.Json
-import PgmVerif.Model.VE
+import Driver.OpsFactor
+import Driver.OpsCPD
 open Lean PgmVerif PgmVerif.Drv
 
-def handle (op : String) (j : Json) : Except String Json := do
-  match op with
-  | "ping" => pure (Json.mkObj [("pong", Json.bool true)])
-  | "ravel" => do
-      let cs ← fldNats j "card"; let is ← fldNats j "idx"
-      pure (Json.mkObj [("r", jNat (ravel cs is))])
-  | "unravel" => do
-      let cs ← fldNats j "card"; let n ← fldNat j "n"
-      pure (Json.mkObj [("r", jNats (unravel cs n))])
-  | "f_product" => do
-      pure (jFactor (Factor.product (← fldFactor j "f") (← fldFactor j "g")))
-  | "f_add" => do
-      pure (jFactor (Factor.add (← fldFactor j "f") (← fldFactor j "g")))
-  | "f_divide" => do
-      let f ← fldFactor j "f"; let g ← fldFactor j "g"
-      pure (Json.mkObj [("r", jFactor (Factor.divide f g)), ("inf", jNats (Factor.divInf f g))])
-  | "f_marginalize" => do
-      pure (jFactor (Factor.marginalize (← fldFactor j "f") (← fldNats j "vars")))
-  | "f_maximize" => do
-      pure (jFactor (Factor.maximize (← fldFactor j "f") (← fldNats j "vars")))
-  | "f_reduce" => do
-      pure (jFactor (Factor.reduce (← fldFactor j "f") (← fldPairs j "ev")))
-  | "f_normalize" => do
-      pure (jFactor (Factor.normalize (← fldFactor j "f")))
-  | "f_permute" => do
-      pure (jFactor (Factor.permuteAxes (← fldFactor j "f") (← fldNats j "scope")))
-  | "bn_posterior" => do
-      let fs ← fldFactors j "fs"; let vars ← fldNats j "vars"; let cards ← fldNats j "cards"
-      let q ← fldNats j "q"; let ev ← fldPairs j "ev"
-      let pu := posteriorU fs vars cards q ev
-      pure (Json.mkObj [("post", jFactor pu.normalize), ("pe", jRat pu.total)])
-  | "bn_joint" => do
-      let fs ← fldFactors j "fs"; let vars ← fldNats j "vars"; let cards ← fldNats j "cards"
-      pure (jFactor (jointTable fs vars cards))
-  | "ve_query" => do
-      let fs ← fldFactors j "fs"; let q ← fldNats j "q"; let ev ← fldPairs j "ev"
-      let order ← fldNats j "order"
-      pure (jFactor (veQuery fs q ev order))
-  | _ => .error s!"unknown op {op}"
+def handlers : List (String → Json → Option (Except String Json)) :=
+  [handleFactor, handleCPD]
+
+def handle (op : String) (j : Json) : Except String Json :=
+  match handlers.findSome? (fun h => h op j) with
+  | some r => r
+  | none => .error s!"unknown op {op}"
 
 def handleLine (line : String) : String :=
   match Json.parse line with
